@@ -1,4 +1,4 @@
-(* Stages B-E, part 1: Compiler.compile_program on programs over variables emits exactly [pcode]: one global slot per
+(* Stages B-F, part 1: Compiler.compile_program on programs over variables emits exactly [pcode]: one global slot per
    declaration in program-text order (whatever block it is in), one block table per branch / loop / loop body, jumps, the
    placeholders of break / continue patched by the enclosing loop, the PopTop / Nil glue between statements.
    The symbol tables are described by an invariant ([chain]): from the current table up to the root every table is an
@@ -378,6 +378,25 @@ Section Names.
           let jb := nlen inner in
           ret (patch 0 (jb + 2) jb inner ++ I [opJumpBackward; jb; opNop]))))))).
   Proof. destruct e; reflexivity. Qed.
+  (* the three-clause loop *)
+  Lemma compile_NFor3 f c i p body : compile (S f) (NFor (Some c) (Some i) (Some p) body) =
+    bind open_block (fun _ => bind (push_loop false) (fun _ =>
+      bind (bind (compile f i) (fun x => ret (x ++ (if is_expression i then I [opPopTop] else [])))) (fun ic =>
+      bind (compile f c) (fun cc => bind (cblock f body) (fun b =>
+      bind (bind (compile f p) (fun x => ret (x ++ (if is_expression p then I [opPopTop] else [])))) (fun pc =>
+      bind pop_loop (fun _ => bind close_block (fun _ =>
+        let tail_len := (nlen b + 1 + nlen pc + 2)%N in
+        let head := cc ++ I [opPopJumpForwardIfFalse; (tail_len + 2)%N] in
+        let cont_dst := (nlen head + nlen b + 1)%N in
+        let jb := (cont_dst + nlen pc)%N in
+        ret (ic ++ patch 0 (jb + 2) cont_dst (head ++ b ++ I [opPopTop] ++ pc) ++ I [opJumpBackward; jb]))))))))).
+  Proof. reflexivity. Qed.
+  Lemma simple_code k1 k2 scope base p : is_simple p = true -> stmt_code k1 scope base p = stmt_code k2 scope base p.
+  Proof. destruct p; try discriminate; reflexivity. Qed.
+  Lemma simple_embed k1 k2 scope p : is_simple p = true -> embed_stmt names k1 scope p = embed_stmt names k2 scope p.
+  Proof. destruct p; try discriminate; reflexivity. Qed.
+  Lemma simple_not_expr p : is_simple p = true -> is_expr_stmt p = false.
+  Proof. destruct p; try discriminate; reflexivity. Qed.
   Lemma compile_NBreak f tabs t ks rest : compile (S f) NBreak (mkst tabs t ks ((false, 0) :: rest)) =
     inr ([SI opJumpForward; SBrk], mkst tabs t ks ((false, 0) :: rest)).
   Proof. reflexivity. Qed.
@@ -403,6 +422,8 @@ Section Names.
   Lemma next_scope_flat k t l rest s : next_scope k (flat ((t, l) :: rest)) s = flat ((t, l ++ dl k s) :: rest).
   Proof. destruct s; cbn [next_scope dl]; rewrite ?app_nil_r; try reflexivity. rewrite flat_decl. reflexivity. Qed.
 
+  Lemma simple_dl k p : is_simple p = true -> dl k p = [].
+  Proof. destruct p; try discriminate; reflexivity. Qed.
   Definition loops_ok (lp : bool) (loops : list (bool * nat)) : Prop :=
     lp = true -> exists rest, loops = (false, 0) :: rest.
   (* what holds of one statement compiled with fuel S f *)
@@ -487,7 +508,7 @@ Section Names.
     induction f as [f IH] using lt_wf_ind.
     intros s k tabs t l rest ks loops lp Hh Hk Hwf Hlp Hc.
     set (ch := (t, l) :: rest) in *. set (scope := flat ch) in *.
-    destruct s as [e|i e|i o e|i up|e|c tb eb|c tb|c b| |].
+    destruct s as [e|i e|i o e|i up|e|c tb eb|c tb|c b|e c p b| |].
     - (* x := e *)
       cbn [embed_stmt stmt_code nd wf_stmt sheight dl] in *.
       rewrite compile_NVar.
@@ -586,6 +607,58 @@ Section Names.
       cbv zeta. unfold ret.
       replace (nlen cb + 2 + 1 + 2 + 1)%N with (nlen cb + 6)%N by lia.
       rewrite <- !app_assoc. reflexivity.
+    - (* for x := e; c; p { b } *)
+      rewrite wf_SFor in Hwf. apply andb_true_iff in Hwf. destruct Hwf as [Hwf Hwb].
+      apply andb_true_iff in Hwf. destruct Hwf as [Hwf Hwp]. apply andb_true_iff in Hwf. destruct Hwf as [Hwf Hsp].
+      apply andb_true_iff in Hwf. destruct Hwf as [Hwe Hwc].
+      rewrite sheight_SFor in Hh. destruct f as [|f]; [lia|]. rewrite nd_SFor in *. cbn [dl]. rewrite app_nil_r.
+      assert (Hst : stmt_ok f) by (apply IH; lia).
+      rewrite embed_SFor, code_SFor, compile_NFor3.
+      destruct (open_block_good k tabs ch t l rest ks loops Hc eq_refl) as [tabs1 [Ho Hc1]].
+      assert (Hfl : flat ((length tabs, []) :: ch) = scope) by (rewrite (flat_cons (length tabs)), app_nil_r; reflexivity).
+      set (lps := (false, 0) :: loops).
+      (* init *)
+      destruct (cexp_at (slot_of scope) (length ks) e) as [ci ki] eqn:Ei.
+      assert (Hwe' : wf_stmt false (length (flat ((length tabs, []) :: ch))) (SDecl e) = true) by (rewrite Hfl; exact Hwe).
+      destruct (Hst (SDecl e) k tabs1 (length tabs) [] ch ks lps false ltac:(cbn [sheight]; lia) ltac:(cbn [nd]; lia) Hwe'
+                  ltac:(intros Hx; discriminate) Hc1) as [tabs2 [Hin Hc2]].
+      rewrite Hfl in Hin. cbn [embed_stmt stmt_code] in Hin. rewrite Ei in Hin. cbn [fst snd] in Hin.
+      cbn [nd dl app] in Hc2. rewrite Nat.add_1_r in Hc2.
+      assert (Hfl2 : flat ((length tabs, [k]) :: ch) = scope ++ [k]) by (rewrite (flat_cons (length tabs)); reflexivity).
+      cbv zeta.
+      (* condition *)
+      assert (Hwc' : wf (length (scope ++ [k])) c = true) by (rewrite app_length; cbn [length]; rewrite Nat.add_1_r; exact Hwc).
+      destruct (cexp_at (slot_of (scope ++ [k])) (length ks + length ki) c) as [cc kc] eqn:Ec.
+      (* body *)
+      assert (Hlp' : loops_ok true lps) by (intros _; eexists; reflexivity).
+      assert (Hwb' : wf_stmts true (length (flat ((length tabs, [k]) :: ch))) b = true)
+        by (rewrite Hfl2, app_length; cbn [length]; rewrite Nat.add_1_r; exact Hwb).
+      destruct (cblock_good f Hst b (S k) tabs2 (length tabs) [k] ch ((ks ++ ki) ++ kc) lps true ltac:(lia) ltac:(lia) Hwb' Hlp' Hc2)
+        as [tabs3 [Hc3 Hcv3]].
+      rewrite Hfl2, !app_length in Hc3.
+      destruct (block_code (S k) (scope ++ [k]) (length ks + length ki + length kc) b) as [cb kb] eqn:Eb. cbn [fst snd] in Hc3.
+      (* post *)
+      assert (Hwp' : wf_stmt lp (length (flat ((length tabs, [k]) :: ch))) p = true)
+        by (rewrite Hfl2, app_length; cbn [length]; rewrite Nat.add_1_r; exact Hwp).
+      assert (Hlpp : loops_ok lp lps) by (intros _; eexists; reflexivity).
+      destruct (Hst p (S k + ndecls b) tabs3 (length tabs) [k] ch (((ks ++ ki) ++ kc) ++ kb) lps lp ltac:(lia)
+                  ltac:(rewrite (nd_simple p Hsp); lia) Hwp' Hlpp Hcv3) as [tabs4 [Hc4 Hcv4]].
+      rewrite (simple_dl _ p Hsp), (nd_simple p Hsp), Nat.add_0_r in Hcv4. cbn [app] in Hcv4.
+      rewrite Hfl2, !app_length in Hc4.
+      rewrite (simple_code _ (S k) _ _ p Hsp), (simple_embed _ (S k) _ p Hsp) in Hc4.
+      destruct (stmt_code (S k) (scope ++ [k]) (length ks + length ki + length kc + length kb) p) as [cp kp] eqn:Ep. cbn [fst snd] in Hc4.
+      destruct (close_block_to (S k + ndecls b) tabs4 (length tabs) [k] t l rest ((((ks ++ ki) ++ kc) ++ kb) ++ kp) loops Hcv4) as [Hcl Hcv5].
+      exists tabs4. split; [|replace (k + S (ndecls b)) with (S k + ndecls b) by lia; exact Hcv5].
+      unfold bind at 1. rewrite Ho. unfold bind at 1. rewrite push_loop_mkst. fold lps.
+      unfold bind at 1. unfold bind at 1. rewrite Hin. unfold ret at 1. cbn [is_expression].
+      unfold bind at 1.
+      rewrite (compile_exp (S k) tabs2 ((length tabs, [k]) :: ch) (length tabs) [k] ch (ks ++ ki) lps c (S f) (scope ++ [k]) Hc2 eq_refl (eq_sym Hfl2) Hwc' ltac:(lia)).
+      rewrite app_length, Ec. cbn [fst snd].
+      unfold bind at 1. rewrite Hc3.
+      unfold bind at 1. unfold bind at 1. rewrite Hc4. unfold ret at 1.
+      rewrite embed_stmt_is_expression, (simple_not_expr p Hsp).
+      unfold bind at 1. unfold lps. rewrite pop_loop_mkst. unfold bind at 1. rewrite Hcl.
+      cbv zeta. unfold ret. rewrite !app_nil_r, <- !app_assoc. reflexivity.
     - (* break *)
       cbn [wf_stmt] in Hwf. destruct (Hlp Hwf) as [rest' ->].
       exists tabs. cbn [nd dl stmt_code fst snd embed_stmt]. rewrite Nat.add_0_r, !app_nil_r. split; [|exact Hc].
@@ -609,7 +682,7 @@ Section Names.
   Proof.
     unfold collect_decls. induction l as [|s r IH]; intros k scope; [reflexivity|].
     rewrite embed_stmts_cons.
-    destruct s as [e|i e|i o e|i up|e|c t e|c t|c b| |]; cbn [embed_stmt]; try apply IH.
+    destruct s as [e|i e|i o e|i up|e|c t e|c t|c b|e0 c p b| |]; cbn [embed_stmt]; try apply IH.
     destruct e; cbn [embed]; apply IH.
   Qed.
 
